@@ -4,7 +4,9 @@
    SecurityContext.correctly_signed_response (sigver.py 1644-1671); the choice of verification
    keys in SecurityContext._check_signature (sigver.py 1391-1432: metadata certs of the issuer named
    by the signed element, certificates of the message's own ds:KeyInfo only when there are none AND
-   only_use_keys_in_metadata is off, MissingKey when the list stays empty); AuthnResponse._assertion
+   only_use_keys_in_metadata is off, MissingKey when the list stays empty; 1455-1534: the XML-DSig
+   profile validators and the only-Signature-child test, over the SHAPE of the ds:Signature);
+   AuthnResponse._assertion
    (response.py 777-810, with the Response/assertion issuer comparison) and decrypt_assertions
    (842-866); option defaults of client_base.Base.__init__ (162-193) and config.Config.__init__
    (generated table C01Tables).
@@ -27,7 +29,36 @@ Inductive who := WIdp | WOther | WUnknown | WNone.
 (* what ds:KeyInfo of a signature ships: nothing, the signer's certificate, or (decoy) the
    certificate of the trusted IdP whoever signed *)
 Inductive kinfo := KiNone | KiSigner | KiIdp.
-Record sgn := { signer : key; ki : kinfo; corrupt : bool }.
+
+(* ---- the shape of a ds:Signature on the wire (round 3) ---------------------------------------------
+   What the single ds:Reference elements point to, the algorithms named, whether a ds:Object rides
+   along, and whether the signed element carries a second ds:Signature child. *)
+Inductive rtarget :=
+  | ROwn        (* URI = "#" + ID of the element that carries the signature *)
+  | ROther      (* URI = "#" + ID of ANOTHER element of the same type present in the document *)
+  | REmpty      (* URI = "" : the whole document *)
+  | RNoUri      (* no URI attribute : the whole document *)
+  | RXPtr       (* URI = "#xpointer(id('<own ID>'))" *)
+  | RBare       (* URI = "#" *)
+  | RDangling   (* URI = "#" + an ID that no element of that type carries *)
+  | RExternal.  (* URI = "https://..." *)
+Inductive calg := CExc | CExcWC | CInc.            (* exc-c14n, exc-c14n#WithComments, inclusive c14n 1.0 *)
+Inductive talg := TEnv | TExc | TExcWC | TInc.     (* enveloped-signature and the three above as transforms *)
+(* a second ds:Signature child of the signed element (a filled-in signature in profile form that does
+   not verify), placed before or after the one described by the record *)
+Inductive extra := XNone | XBefore | XAfter.
+Record shape := {
+  refs : list rtarget;    (* the ds:Reference elements of SignedInfo, in order *)
+  c14n : calg;            (* CanonicalizationMethod *)
+  trs : list talg;        (* the Transform elements of every Reference ([] = no ds:Transforms element) *)
+  obj : bool;             (* a ds:Object child *)
+  xsig : extra
+}.
+(* the form every SAML implementation emits *)
+Definition std : shape := {| refs := [ROwn]; c14n := CExc; trs := [TEnv; TExc]; obj := false; xsig := XNone |}.
+
+(* corrupt: a DigestValue or the SignatureValue does not match what the References select *)
+Record sgn := { signer : key; ki : kinfo; corrupt : bool; shp : shape }.
 
 Inductive bind := POST | Redirect | SOAP | PAOS.
 (* a configured option value: not configured, a boolean, or the string "true" *)
@@ -77,25 +108,81 @@ Definition is_nil {A} (l : list A) : bool := match l with [] => true | _ => fals
 (* xmlsec verify of one signature against one certificate *)
 Definition xmlsec_verify (g : sgn) (cert : key) : bool := key_eqb cert (signer g) && negb (corrupt g).
 
+(* ---- the XML-DSig profile validators of _check_signature (sigver.py, "saml-core section 5.4") --------
+   item.signature is the LAST ds:Signature child of the parsed element (a single-valued child: the last
+   one wins), xmlsec1 verifies the FIRST ds:Signature at or below the element. *)
+Definition parsed (s : shape) : shape := match xsig s with XAfter => std | _ => s end.
+
+Definition talg_eqb (a b : talg) : bool :=
+  match a, b with TEnv, TEnv | TExc, TExc | TExcWC, TExcWC | TInc, TInc => true | _, _ => false end.
+Definition allowed_t (t : talg) : bool := match t with TEnv | TExc | TExcWC => true | TInc => false end.
+Definition allowed_c (c : calg) : bool := match c with CExc | CExcWC => true | CInc => false end.
+(* len(ALLOWED_TRANSFORMS.intersection(transform_algos)): the number of DISTINCT allowed algorithms *)
+Fixpoint distinct (l : list talg) : list talg :=
+  match l with [] => [] | t :: l' => if existsb (talg_eqb t) l' then distinct l' else t :: distinct l' end.
+(* references[0].uri.startswith("#") and len(references[0].uri) > 1 *)
+Definition uri_anchor (t : rtarget) : bool :=
+  match t with ROwn | ROther | RXPtr | RDangling => true | REmpty | RNoUri | RBare | RExternal => false end.
+(* references[0].uri == f"#{item.id}" *)
+Definition uri_is_own (t : rtarget) : bool := match t with ROwn => true | _ => false end.
+Definition is_env (t : talg) : bool := match t with TEnv => true | _ => false end.
+Definition single (s : shape) : bool := Nat.eqb (length (refs s)) 1.
+
+(* AttributeError: None.startswith (a single Reference without URI attribute) or None.transform (no
+   ds:Transforms element); neither a SigverError nor caught anywhere *)
+Definition crashes (s : shape) : bool :=
+  (single s && match refs s with RNoUri :: _ => true | _ => false end) || is_nil (trs s).
+
+Definition validators (s : shape) : bool :=
+  let r0 := hd ROwn (refs s) in
+  let the_Reference_element_must_have_a_URI_attribute := single s in               (* hasattr: always *)
+  let the_URI_attribute_contains_an_anchor := the_Reference_element_must_have_a_URI_attribute && uri_anchor r0 in
+  let the_anchor_points_to_the_enclosing_element_ID_attribute := the_URI_attribute_contains_an_anchor && uri_is_own r0 in
+  let n := length (trs s) in
+  let valid_n := length (distinct (filter allowed_t (trs s))) in
+  let the_number_of_transforms_is_one_or_two := single s && Nat.leb 1 n && Nat.leb n 2 in
+  let all_transform_algs_are_allowed := the_number_of_transforms_is_one_or_two && Nat.eqb n valid_n in
+  let the_enveloped_signature_transform_is_defined := the_number_of_transforms_is_one_or_two && existsb is_env (trs s) in
+  single s && the_Reference_element_must_have_a_URI_attribute && the_URI_attribute_contains_an_anchor
+  && the_anchor_points_to_the_enclosing_element_ID_attribute && allowed_c (c14n s)
+  && the_number_of_transforms_is_one_or_two && all_transform_algs_are_allowed
+  && the_enveloped_signature_transform_is_defined && negb (obj s).
+
+(* _is_the_only_signature_child: exactly one ds:Signature child, ahead of any other ds:Signature *)
+Definition only_signature_child (s : shape) : bool := match xsig s with XNone => true | _ => false end.
+
+Inductive gres := GPass | GReject | GCrash.
+Definition profile_gate (s : shape) : gres :=
+  if crashes (parsed s) then GCrash
+  else if negb (validators (parsed s)) then GReject
+  else if negb (only_signature_child s) then GReject
+  else GPass.
+
 (* result of one check: returns the item, raises MissingKey (a SigverError that is not a
-   SignatureError) or raises SignatureError *)
-Inductive vres := VOk | VMissingKey | VSigErr.
+   SignatureError), raises SignatureError, or dies of an AttributeError *)
+Inductive vres := VOk | VMissingKey | VSigErr | VCrash.
 
 Definition check_signature (only_md : bool) (issuer : who) (schema_ok : bool) (g : sgn) : vres :=
   let certs := md_certs issuer in
   let certs := if is_nil certs && negb only_md then instance_certs g else certs in
   if is_nil certs then VMissingKey
   else if negb schema_ok then VSigErr                        (* validate_doc_with_schema *)
-  else if existsb (xmlsec_verify g) certs then VOk else VSigErr.
+  else match profile_gate (shp g) with
+       | GCrash => VCrash
+       | GReject => VSigErr
+       (* past the gate the single Reference selects the signed element itself: xmlsec1 decides on
+          the key and on the integrity of digest and signature value *)
+       | GPass => if existsb (xmlsec_verify g) certs then VOk else VSigErr
+       end.
 
 (* what the code finds when it looks at one element *)
-Inductive sres := SAbsent | SOk | SMissingKey | SSigErr.
+Inductive sres := SAbsent | SOk | SMissingKey | SSigErr | SCrash.
 
 Definition look (only_md : bool) (issuer : who) (schema_ok : bool) (s : option sgn) : sres :=
   match s with
   | None => SAbsent
   | Some g => match check_signature only_md issuer schema_ok g with
-              | VOk => SOk | VMissingKey => SMissingKey | VSigErr => SSigErr end
+              | VOk => SOk | VMissingKey => SMissingKey | VSigErr => SSigErr | VCrash => SCrash end
   end.
 
 (* ---- the two passes ------------------------------------------------------------------------------- *)
@@ -109,6 +196,7 @@ Definition load_response (require_response_signature : bool) (r : sres) : outcom
   | SOk => Done
   | SMissingKey => SigverErr
   | SSigErr => SignatureErr
+  | SCrash => OtherErr
   | SAbsent => if require_response_signature then SignatureErr else Done
   end.
 
@@ -120,6 +208,7 @@ Definition verify_assertions (require_signature : bool) (a : sres) (issuers_matc
   match a with
   | SMissingKey => SigverErr
   | SSigErr => SignatureErr
+  | SCrash => OtherErr
   | SAbsent => if require_signature then SignatureErr else if issuers_match then Done else OtherErr
   | SOk => if issuers_match then Done else OtherErr
   end.
@@ -197,9 +286,9 @@ Record input := {
 Definition sgn_of (s : sigst) : option sgn :=
   match s with
   | Absent => None
-  | Valid => Some {| signer := KIdp; ki := KiNone; corrupt := false |}
-  | Corrupt => Some {| signer := KIdp; ki := KiNone; corrupt := true |}
-  | Untrusted => Some {| signer := KAttacker; ki := KiNone; corrupt := false |}
+  | Valid => Some {| signer := KIdp; ki := KiNone; corrupt := false; shp := std |}
+  | Corrupt => Some {| signer := KIdp; ki := KiNone; corrupt := true; shp := std |}
+  | Untrusted => Some {| signer := KAttacker; ki := KiNone; corrupt := false; shp := std |}
   end.
 Definition config_of (x : input) : config :=
   {| c_wr := o_wr x; c_wa := o_wa x; c_wor := o_wor x; c_only := Unset |}.
